@@ -502,7 +502,10 @@ impl<'a> Operator<&'a Vec<()>> for FailingUnitMaker {
     type Output = ();
     type Error = ProbeErr;
     fn apply<R: Rng + ?Sized>(&self, _pop: &'a Vec<()>, _rng: &mut R) -> Result<(), ProbeErr> {
-        Err(ProbeErr(self.calls.fetch_add(1, Ordering::SeqCst)))
+        let k = self.calls.fetch_add(1, Ordering::SeqCst);
+        // a step that keeps applying the child maker after failures would go on for 2^64 applications: end it
+        if k >= 100_000 { panic!("the child maker was applied more than 100000 times although every application fails"); }
+        Err(ProbeErr(k))
     }
 }
 
@@ -517,8 +520,9 @@ fn astronomic_populations(r: &mut Report) {
             let res = std::panic::catch_unwind(std::panic::AssertUnwindSafe(|| if mode == 0 { gen.serial_next() } else { pools()[mode - 1].1.install(|| gen.par_next()) }));
             r.case(&format!("astronomic population {n} mode {mode}"), true);
             r.hit("population of astronomic size, failing child maker");
+            let applied = calls.load(Ordering::SeqCst);
             let bad = match res {
-                Err(_) => Some("panicked".to_string()),
+                Err(_) => Some(if applied >= 100_000 { format!("the child maker was applied {applied} times (and counting) although its first application failed: the step does not stop at the first failure") } else { "panicked".to_string() }),
                 Ok(Ok(())) => Some("succeeded although every child fails".to_string()),
                 Ok(Err(_)) => if gen.population().len() != n { Some(format!("population size changed to {}", gen.population().len())) } else { None },
             };
@@ -675,7 +679,12 @@ pub fn run(cfg: &Cfg) -> Report {
         let c = gen_case(&mut g, thorough, i, n_exh, &exh);
         run_case(d, r, &c, &mut g, i);
     });
-    if mutant().is_empty() { set_population_scenarios(&mut rep, seed); astronomic_populations(&mut rep); large_population_steps(&mut rep); library_pipeline_scenarios(&mut rep, seed); }
+    if mutant().is_empty() {
+        crate::watch::guarded("generation: set-like (BTreeSet) populations stepped four times", || set_population_scenarios(&mut rep, seed));
+        crate::watch::guarded("generation: a step over vec![(); usize::MAX] (and neighbours) whose child maker fails at its first call, serial and under every pool", || astronomic_populations(&mut rep));
+        crate::watch::guarded("generation: steps over 65 535 .. 131 073 individuals, serial and under pools, incl. a failure in the last child", || large_population_steps(&mut rep));
+        crate::watch::guarded("generation: child makers assembled from library parts, generations with different configurations stepped in sequence", || library_pipeline_scenarios(&mut rep, seed));
+    }
     if !mutant().is_empty() { rep.notes.push(format!("SELF-TEST: real Generation replaced by mutant `{}`", mutant())); }
     rep.exhaustive = true;
     rep.notes.push(format!("exhaustive scope: population sizes 0..=16 x every failing call position 0..n (and none) x (serial, rayon pools of 1,2,3,4,8,16 threads) x {reps} repeats = {n_exh} cases; seeded random: {n_rand} cases of 1-3 consecutive steps"));
